@@ -590,7 +590,7 @@ def ob_operator(kind, et, seed):
                 K, R = NonLinear.GonzalezStressTensor(mat, *sts, True)
                 scale = F(1, 2)
             elif kind.startswith("quadrature"):
-                npts, coefK = {"quadrature.1": (1, F(1, 2)), "quadrature.2": (2, F(1, 2)), "quadrature.3": (3, F(1, 2)), "quadrature.newmark": (3, F(1))}[kind]
+                npts, coefK = {"quadrature.1": (1, F(1, 2)), "quadrature.2": (2, F(1, 2)), "quadrature.3": (3, F(1, 2)), "quadrature.4": (4, F(1, 2)), "quadrature.5": (5, F(1, 2)), "quadrature.newmark": (3, F(1))}[kind]
                 ut = _vec([(un[i] + u1[i] + t * d[i]) / 2 for i in range(nd)]) if coefK == F(1, 2) else u
                 sts = [_mk_state(NPs, g, _vec(un), MatrixType.rigi), _mk_state(NPs, g, ut, MatrixType.rigi), _mk_state(NPs, g, u, MatrixType.rigi)]
                 K, R, _ = NonLinear.TimeQuadratureStressTensor(mat, *sts, coefK, npts)
@@ -1013,7 +1013,7 @@ def _native_operator(kind, et, seed=0):
         if kind.startswith("gonzalez"):
             return NonLinear.GonzalezStressTensor(mat, S(un), S((un + u) / 2), S(u), True) + (0.5,)
         if kind.startswith("quadrature"):
-            npts, ck = {"quadrature.1": (1, 0.5), "quadrature.2": (2, 0.5), "quadrature.3": (3, 0.5), "quadrature.newmark": (3, 1.0), "quadrature.exact": (3, 0.5)}[kind]
+            npts, ck = {"quadrature.1": (1, 0.5), "quadrature.2": (2, 0.5), "quadrature.3": (3, 0.5), "quadrature.4": (4, 0.5), "quadrature.5": (5, 0.5), "quadrature.9": (9, 0.5), "quadrature": (3, 0.5), "quadrature.newmark": (3, 1.0), "quadrature.exact": (3, 0.5)}[kind]
             K, R, _ = NonLinear.TimeQuadratureStressTensor(mat, S(un), S((un + u) / 2) if ck == 0.5 else S(u), S(u), ck, npts)
             return K, R, ck
         if kind == "active":
@@ -1160,7 +1160,8 @@ def ob_native_operator(kind, et, law):
             return NonLinear.SecondPiolaKirchhoffStressTensor(mat, S(u)) + (1.0,)
         if kind == "gonzalez":
             return NonLinear.GonzalezStressTensor(mat, S(un), S((un + u) / 2), S(u), True) + (0.5,)
-        K, R, _ = NonLinear.TimeQuadratureStressTensor(mat, S(un), S((un + u) / 2), S(u), 0.5, 3)
+        npts = int(kind.split(".")[1]) if "." in kind else 3          # fixed Clenshaw-Curtis rule with that many points along the strain path
+        K, R, _ = NonLinear.TimeQuadratureStressTensor(mat, S(un), S((un + u) / 2), S(u), 0.5, npts)
         return K, R, 0.5
     rows = np.asarray(g.Get_assembly_e(dim))
     K, R, scale = KR(u1)
@@ -1273,7 +1274,7 @@ def build(tier, seed):
         obs.append(Ob(f"C18.law.{law}.dW", ob_law, (law, "dW"), "P", (f"{LAWS}::{law}.Compute_W", f"{LAWS}::{law}.Compute_dWde"), clause="stress == 2 sum dW/dI_k dI_k/dC for all invariants and parameters", timeout=900))
         obs.append(Ob(f"C18.law.{law}.d2W", ob_law, (law, "d2W"), "P", (f"{LAWS}::{law}.Compute_W", f"{LAWS}::{law}.Compute_d2Wde"), clause="tangent == chain rule of the second derivative of W", timeout=1800))
         obs.append(Ob(f"C18.law.{law}.ref", ob_law_ref, (law,), "P", (f"{LAWS}::{law}.Compute_W", f"{LAWS}::{law}.Compute_dWde"), clause="W == 0 and stress == 0 at C == I", timeout=600))
-    kinds = ["pointwise", "gonzalez", "quadrature.1", "quadrature.2", "quadrature.3", "quadrature.newmark", "active", "kelvinvoigt.K", "kelvinvoigt.C"]
+    kinds = ["pointwise", "gonzalez", "quadrature.1", "quadrature.2", "quadrature.3", "quadrature.newmark", "active", "kelvinvoigt.K", "kelvinvoigt.C"]          # (rules with more than 3 points take np.cos of computed angles: left to the native obligations native.op.quadrature.{4,9})
     for kind in kinds:
         # exact runs cost grows with (Gauss points x dofs): HEXA8 needs ~10 min per operator call and the Gonzalez rational functions on QUAD4 more; both are left to the native
         # finite-difference obligations (C18.native.op.*), the exact ones cover TRI3 / QUAD4 / TETRA4 / TRI6 / PRISM6
@@ -1300,7 +1301,7 @@ def build(tier, seed):
                               clause="stress / tangent vs finite differences; objectivity; reference state", timeout=1800))
     obs.append(Ob("C18.native.operator.quadrature.adaptive.fields", ob_adaptive_fields, (), "X", (f"{NL}::__AdaptiveTimeQuadratureStressTensor", f"{LAWS}::HolzapfelOgden"), bound="one 8-element block, one step",
                   clause="adaptive path quadrature with per-element law data: returns, and satisfies the discrete-gradient identity", timeout=600))
-    for kind in ("pointwise", "gonzalez", "quadrature"):
+    for kind in ("pointwise", "gonzalez", "quadrature", "quadrature.4", "quadrature.9"):
         for law in ("NeoHookean", "MooneyRivlin") + (("CiarletGeymonat", "HolzapfelOgden") if thorough else ()):
             for et in ("QUAD4",) + (("TETRA4",) if thorough or law == "NeoHookean" else ()):
                 obs.append(Ob(f"C18.native.op.{kind}.{law}.{et}", ob_native_operator, (kind, et, law), "X", (f"{NL}::{_opname(kind)}",), bound="2-element patch, one seeded state",
